@@ -18,10 +18,19 @@ tag = sys.argv[3] if len(sys.argv) > 3 else ""
 
 
 def one(diff):
-    prop = re.search(r"wt_(C\d+)", diff).group(1)
-    k = os.path.basename(diff)[:-5]
-    demo = diff[:-5] + "_demo.py"
-    metat = diff[:-5] + "_meta.txt"
+    kept = re.search(r"/seeded/(C\d+)-([^/]+)/patch\.diff$", diff)
+    if kept:
+        # re-evaluation of a change already kept under /verif/seeded
+        prop, k = kept.group(1), kept.group(2)
+        demo = os.path.join(os.path.dirname(diff), "demo.py")
+        metat = None
+        old = json.load(open(os.path.join(os.path.dirname(diff), "meta.json")))
+    else:
+        prop = re.search(r"wt_(C\d+)", diff).group(1)
+        k = os.path.basename(diff)[:-5]
+        demo = diff[:-5] + "_demo.py"
+        metat = diff[:-5] + "_meta.txt"
+        old = None
     pids = [prop] + EXTRA.get(prop, [])
     r = subprocess.run([os.path.join(VERIF, ".venv/bin/python"), os.path.join(VERIF, "tools/try_mutant.py"), diff, demo if os.path.exists(demo) else "-", tier, *pids],
                        capture_output=True, text=True)
@@ -29,12 +38,13 @@ def one(diff):
         res = json.loads(r.stdout[r.stdout.index("{"):])
     except Exception as e:  # noqa: BLE001
         return prop, k, {"error": str(e), "out": r.stdout[-500:] + r.stderr[-500:]}
-    d = os.path.join(VERIF, "seeded", f"{prop}-{tag}{k}")
+    d = os.path.join(VERIF, "seeded", f"{prop}-{tag}{k}") if not kept else os.path.dirname(diff)
     os.makedirs(d, exist_ok=True)
-    shutil.copy(diff, os.path.join(d, "patch.diff"))
-    if os.path.exists(demo):
-        shutil.copy(demo, os.path.join(d, "demo.py"))
-    needs = open(metat).read() if os.path.exists(metat) else ""
+    if not kept:
+        shutil.copy(diff, os.path.join(d, "patch.diff"))
+        if os.path.exists(demo):
+            shutil.copy(demo, os.path.join(d, "demo.py"))
+    needs = old["what_it_needs_to_manifest"] if kept else (open(metat).read() if os.path.exists(metat) else "")
     caught = {p: (v["lines"][1].strip() if len(v["lines"]) > 1 else v["lines"][0]) for p, v in res["checks"].items() if v["rc"] == 1}
     meta = {
         "property": prop,
